@@ -190,6 +190,21 @@ Theorem C01_concurrent_partial : forall e sid_req sid_rsp max impl (Ps : pfilter
     forall q, In q qs -> client_conn e sid_rsp max chunks_p (q_id q) = srv_reply e impl i q.
 Proof. exact EndToEndConc.concurrent. Qed.
 
+(* the same without codec hypotheses: requests and replies only have to be in range and within maxPackageLength *)
+Theorem C01_concurrent_any_order : forall e k sid_req sid_rsp max impl (Ps : pfilters ev unit) i
+    (qs sent : list reqpkt) (chunks_q : list bytes) (written : list rsppkt) (chunks_p : list bytes),
+    wf_schema k e -> (k <= 40)%nat ->
+    fields_of e sid_req = schema_requestf_RequestPacket -> fields_of e sid_rsp = schema_requestf_ResponsePacket ->
+    max < 4294967296 ->
+    Permutation.Permutation sent qs -> NoDup (map q_id qs) ->
+    Forall (req_sendable e sid_req max) sent ->
+    concat chunks_q = concat (map (enc_req e sid_req) sent) ->
+    Permutation.Permutation written (server_conn e sid_req max impl (filters_of disp_res Ps) i chunks_q) ->
+    Forall (rsp_sendable e sid_rsp max) written ->
+    concat chunks_p = concat (map (enc_rsp e sid_rsp) written) ->
+    forall q, In q qs -> client_conn e sid_rsp max chunks_p (q_id q) = srv_reply e impl i q.
+Proof. intros e k sid_req sid_rsp max impl Ps i qs sent cq written cp Hwf Hk Hq Hp Hm. exact (EndToEndFull.concurrent_closed e k Hwf Hk sid_req sid_rsp Hq Hp max Hm impl Ps i qs sent cq written cp). Qed.
+
 Print Assumptions C01_prefilled_out_refuted.
 Print Assumptions C01_transparent_ok_outs_last_partial.
 Print Assumptions C01_transparent_err_outs_last_partial.
@@ -204,3 +219,4 @@ Print Assumptions C01_filters_order_after.
 Print Assumptions C01_filters_once.
 Print Assumptions C01_filters_run.
 Print Assumptions C01_concurrent_partial.
+Print Assumptions C01_concurrent_any_order.
